@@ -445,6 +445,9 @@ def make(name, **kw):
         m = GaussTN(2, **kw)
         m.box_draws = True
         return m
+    if name == "G2e":
+        # posterior piled against two prior bounds: flows trained on it put mass beyond the faces of the unit hypercube (clipped / eps-clamped samples)
+        return GaussU(2, mu=[4.8, -4.8], sigma=[0.6, 0.6], **kw)
     if name == "G2rn":
         # narrow truncated-normal prior on [-1, 1]^2 (density up to ~4, i.e. log-weights above zero for box draws), nessai's default box-uniform new_point
         m = GaussTN(2, mu=[0.1, -0.1], sigma=[0.15, 0.15], m0=[0.0, 0.0], s0=[0.2, 0.2], lo=-1.0, hi=1.0, **kw)
